@@ -105,7 +105,7 @@ CALL_FACTS = {
     ("extend", "self.cells"): (True, True, True,
                                "NumberedObjectCollection.extend: raises before mutating (C06_conflict_atomic / "
                                "C06_type_error_atomic)"),
-    ("append", "container"): (True, True, True,
+    ("append", "$n0"): (True, True, True,      # UnitHalfSpace.divider: container.append(div)
                               "NumberedObjectCollection.append: raises before mutating (C06_conflict_atomic / "
                               "C06_type_error_atomic)"),
     ("_add_new_children_to_cell", None): (True, True, False,
@@ -122,13 +122,14 @@ CALL_FACTS = {
     ("append", "self._scattering_laws"): (False, True, False, "list.append"),
     ("add", "self._particles"): (False, True, False, "set.add of a Particle (hashable enum member)"),
     ("remove", "self._particles"): (True, True, True, "set.remove: KeyError before any change when absent"),
-    ("split", "particles"): (False, False, False, "str.split on an argument already checked to be a str"),
+    ("split", "$0"): (False, False, False,     # Mode.set: particles.split()
+                      "str.split on an argument already checked to be a str"),
     ("upper", None): (True, False, False, "str.upper on a value that need not be a str (AttributeError)"),
     ("lower", None): (False, False, False, "str.lower on a key already checked to be a str"),
     ("cycle", None): (False, False, False, "itertools.cycle of a literal list"),
     ("deepcopy", "copy"): (False, False, False,
                            "copy.deepcopy of a syntax tree: builds new objects only, touches no existing object"),
-    ("remove", "tree['classifier'].particles"): (False, True, False,
+    ("remove", "$n0['classifier'].particles"): (False, True, False,   # _unshare_tree: tree['classifier'].particles.remove(particle)
                                                  "ParticleNode.remove(particle) on the classifier of the tree registered "
                                                  "for that particle: the classifier of a tree lists exactly the particles "
                                                  "it is registered for (parser; _unshare_tree keeps it so), in its set and "
@@ -189,33 +190,31 @@ CTOR_FACTS = {
 }
 # subscripts that cannot raise where they stand: (class, function, source of the subscript expression)
 SUBSCRIPT_FACTS = {
-    ("Surface", "surface_constants", "self._surface_constants[i]"):
-        "i < len(constants) == len(self._surface_constants): checked two statements above",
-    ("CylinderParAxis", "coordinates", "self._coordinates[i]"):
-        "i < len(coordinates) == 2 (checked above) and self._coordinates always has 2 nodes (both constructor paths)",
-    ("Importance", "__setitem__", "self._particle_importances[particle]"):
+    # ($i: the index variable of an enclosing `for $i, x in enumerate(...)`, whatever it is called)
+    ("CylinderParAxis", "coordinates", "self._coordinates[$i]"):
+        "$i < len(coordinates) == 2 (checked above) and self._coordinates always has 2 nodes (both constructor paths)",
+    # names in the keys: self, $0 $1 = parameters, $n0 $n1 = locals in binding order (FnCtx.alpha), $i = enumerate index
+    ("Importance", "__setitem__", "self._particle_importances[$0]"):
         "key present: the statement above generates the tree when `particle not in self._particle_importances`",
-    ("Importance", "__setitem__", "self._particle_importances[particle]['data']"):
+    ("Importance", "__setitem__", "self._particle_importances[$0]['data']"):
         "every importance tree has a 'data' list (parser rule and _generate_default_cell_tree)",
-    ("Importance", "__setitem__", "self._particle_importances[particle]['data'][0]"):
+    ("Importance", "__setitem__", "self._particle_importances[$0]['data'][0]"):
         "the 'data' list of a cell-level importance tree has exactly one value",
-    ("Importance", "_set_all", "self._particle_importances[particle]"):
+    ("Importance", "_set_all", "self._particle_importances[$n0]"):
         "key present: the statement above generates the tree when `particle not in self._particle_importances`",
-    ("Importance", "_set_all", "self._particle_importances[particle]['data']"):
+    ("Importance", "_set_all", "self._particle_importances[$n0]['data']"):
         "every importance tree has a 'data' list",
-    ("Importance", "_set_all", "self._particle_importances[particle]['data'][0]"):
+    ("Importance", "_set_all", "self._particle_importances[$n0]['data'][0]"):
         "the 'data' list of a cell-level importance tree has exactly one value",
-    ("Importance", "all", "self._particle_importances[particle]['data']"):
-        "every importance tree has a 'data' list",
-    ("Importance", "all", "self._particle_importances[particle]['data'][0]"):
-        "the 'data' list of a cell-level importance tree has exactly one value",
-    ("Importance", "_unshare_tree", "self._particle_importances[particle]"):
+    ("Importance", "_unshare_tree", "self._particle_importances[$0]"):
         "key present: _unshare_tree is only called by __setitem__, after the statement that generates the tree when "
         "`particle not in self._particle_importances`",
-    ("Importance", "_unshare_tree", "new_tree['data']"): "every importance tree has a 'data' list (copy of one)",
-    ("Importance", "_unshare_tree", "new_tree['data'][-1]"): "the 'data' list of an importance tree is never empty",
-    ("Importance", "_unshare_tree", "new_tree['classifier']"): "every importance tree has a 'classifier' node",
-    ("Importance", "_unshare_tree", "tree['classifier']"): "every importance tree has a 'classifier' node",
+    ("Importance", "_unshare_tree", "$n2['data']"):                    # $n2: new_tree
+        "every importance tree has a 'data' list (copy of one)",
+    ("Importance", "_unshare_tree", "$n2['data'][-1]"): "the 'data' list of an importance tree is never empty",
+    ("Importance", "_unshare_tree", "$n2['classifier']"): "every importance tree has a 'classifier' node",
+    ("Importance", "_unshare_tree", "$n0['classifier']"):              # $n0: tree
+        "every importance tree has a 'classifier' node",
     ("MCNP_Object", "leading_comments.setter", "self._tree['start_pad']"):
         "the same subscript was evaluated by the `if` test just above, before any mutation",
 }
@@ -224,7 +223,8 @@ RECEIVER_HINTS = {
     ("Cell", "self._universe"): "UniverseInput", ("Cell", "self._lattice"): "LatticeInput",
     ("Cell", "self._volume"): "Volume", ("Cells", "self._volume"): "Volume",
     ("MCNP_Problem", "self._mode"): "Mode",
-    ("Cells", "cell.importance"): "Importance", ("Universe", "cell"): "Cell",
+    ("Cells", "$n1.importance"): "Importance",      # set_equal_importance: `for cell in self: cell.importance...`
+    ("Universe", "$n0"): "Cell",                    # claim: `for cell in cells: cell.universe = self`
     ("Material", "self._thermal_scattering"): "ThermalScatteringLaw",
 }
 # attributes of self that hold plain Python containers (list/set/dict), per class
@@ -232,6 +232,7 @@ PLAIN_CONTAINERS = {("Mode", "_particles"), ("ThermalScatteringLaw", "_scatterin
                     ("CellDataPrintController", "_print_data"), ("Importance", "_particle_importances")}
 
 MAX_INLINE = 4
+DEBUG_KEYS = bool(os.environ.get("C14_DEBUG_KEYS"))
 
 
 # ------------------------------------------------------------------------------------------------
@@ -524,10 +525,24 @@ class FnCtx:
         self.primary = self.params[0] if self.params else None
         self.locals = set()
         self.loopvars = set()
+        # names as the facts below spell them: self, $0 $1 .. (parameters), $n0 $n1 .. (local names in the order
+        # ast.walk meets their first binding): renaming a parameter or a local does not change a fact's key
+        self.alpha = {}
+        if args:
+            self.alpha[args[0]] = "self"
+        for i, a in enumerate(args[1:]):
+            self.alpha[a] = "$%d" % i
+        k = 0
+        for n in ast.walk(fd):
+            if isinstance(n, ast.Name) and isinstance(n.ctx, ast.Store) and n.id not in self.alpha:
+                self.alpha[n.id] = "$n%d" % k
+                k += 1
         self.fresh_deep = set()      # locals bound to an object graph created in this call (deepcopy / constructor)
         self.fresh_shallow = set()   # locals bound to a container created in this call ({} [] set() comprehension)
         self.guards = []             # sources of expressions known to be truthy (enclosing `if E:` / `if E and ..:`)
         self.validated = set()       # names whose value a collection constructor accepted (`Cells(list(x))` statement)
+        self.len_eq = set()          # {src A, src B}: a check `if len(A) != len(B): raise` has been passed
+        self.index_of = {}           # index variable of an enclosing `for i, x in enumerate(A)` -> src A
         self.last_effect = None      # source of the callee of the last effect emitted
 
 
@@ -560,6 +575,14 @@ class Translator:
         if isinstance(e, ast.Call):
             return self.root_name(e.func)
         return e.id if isinstance(e, ast.Name) else None
+
+    def nsrc(self, ctx, node):
+        """source of an expression with parameter and local names replaced by their placeholders"""
+        class R(ast.NodeTransformer):
+            def visit_Name(self_, n):
+                return ast.copy_location(ast.Name(id=ctx.alpha.get(n.id, n.id), ctx=n.ctx), n)
+        import copy
+        return ast.unparse(R().visit(copy.deepcopy(node)))
 
     def mentions_param(self, ctx, e):
         """does the expression depend on an argument as the caller passed it?  (a parameter name that has been
@@ -611,19 +634,28 @@ class Translator:
         if isinstance(e, ast.Subscript):
             out += self.effects(ctx, e.value, stmt_node, absorb)
             out += self.effects(ctx, e.slice, stmt_node, absorb)
-            src = ast.unparse(e)
+            src = self.nsrc(ctx, e)
             key = (ctx.cls, ctx.fname, src)
             vsrc = ast.unparse(e.value)
             const_end = (isinstance(e.slice, ast.Constant) and e.slice.value == 0) or (
                 isinstance(e.slice, ast.UnaryOp) and isinstance(e.slice.op, ast.USub)
                 and isinstance(e.slice.operand, ast.Constant) and e.slice.operand.value == 1)
+            idx = e.slice.id if isinstance(e.slice, ast.Name) and e.slice.id in ctx.index_of else None
+            if idx is not None:
+                src = self.nsrc(ctx, e.value) + "[$i]"
+                key = (ctx.cls, ctx.fname, src)
+            if DEBUG_KEYS:
+                print("KEY subscript", ctx.cls, ctx.qual, "|", ast.unparse(e), "|", src)
             if const_end and vsrc in ctx.guards:
                 self.notes.append((f"{ctx.cls}.{ctx.fname}", f"subscript {src} cannot raise: inside `if {vsrc}` (non-empty)"))
+            elif idx is not None and (vsrc == ctx.index_of[idx] or frozenset((vsrc, ctx.index_of[idx])) in ctx.len_eq):
+                self.notes.append((f"{ctx.cls}.{ctx.fname}", f"subscript {vsrc}[{idx}] cannot raise: {idx} enumerates "
+                                                             f"{ctx.index_of[idx]}, which a check above found as long as {vsrc}"))
             elif key in SUBSCRIPT_FACTS or (ctx.cls, ctx.qual, src) in SUBSCRIPT_FACTS:
                 why = SUBSCRIPT_FACTS.get(key) or SUBSCRIPT_FACTS[(ctx.cls, ctx.qual, src)]
                 self.notes.append((f"{ctx.cls}.{ctx.qual}", f"subscript {src} cannot raise: {why}"))
             elif not absorb:
-                out.append(self.mk(ctx, "call", stmt_node, f="subscript:" + src, r=True, m=False, a=False))
+                out.append(self.mk(ctx, "call", stmt_node, f="subscript:" + ast.unparse(e), r=True, m=False, a=False))
             return out
         if isinstance(e, (ast.ListComp, ast.GeneratorExp, ast.SetComp, ast.DictComp)):
             inner = []
@@ -695,7 +727,10 @@ class Translator:
                                                              "str(<argument>); it builds a fresh node and touches no existing object"))
                 out.append(self.mk(ctx, "convert", stmt_node, t="str", guarded=True, none_guard=True))
                 return out
-            fact = CALL_FACTS.get((m, recv)) or CALL_FACTS.get((m, None))
+            nrecv = self.nsrc(ctx, f.value)
+            if DEBUG_KEYS:
+                print("KEY call", ctx.cls, ctx.qual, "|", m, "|", recv, "|", nrecv)
+            fact = CALL_FACTS.get((m, nrecv)) or CALL_FACTS.get((m, None))
             fact = self.conditional_fact(ctx, e, m, recv, fact)
             # pure look-ups on plain containers held by self
             if fact is None and m in PURE_CONTAINER_METHODS and isinstance(f.value, ast.Attribute) \
@@ -719,14 +754,14 @@ class Translator:
             target_cls = None
             if recv == ctx.selfname:
                 target_cls = ctx.cls
-            elif (ctx.cls, recv) in RECEIVER_HINTS:
-                target_cls = RECEIVER_HINTS[(ctx.cls, recv)]
+            elif (ctx.cls, nrecv) in RECEIVER_HINTS:
+                target_cls = RECEIVER_HINTS[(ctx.cls, nrecv)]
             if target_cls and fact is None:
                 c, fd = self.ix.find_method(target_cls, m)
                 if fd is not None and ctx.depth < MAX_INLINE and (c, m) not in ctx.stack:
                     src_arg = self.argsrc(ctx, e.args[0]) if e.args else ("unknown", None)
                     body = self.function(c, m, fd, self.ix.classes[c]["file"], ctx.depth + 1, ctx.stack + [(c, m)])
-                    if (ctx.cls, recv) in RECEIVER_HINTS:
+                    if (ctx.cls, nrecv) in RECEIVER_HINTS:
                         self.notes.append((f"{ctx.cls}.{ctx.fname}", f"receiver {recv} is a {target_cls}"))
                     out.append(self.mk(ctx, "inline", stmt_node, f=f"{c}.{m}", src=src_arg, body=body,
                                        callee=dict(file=self.ix.classes[c]["file"], name=m, line=fd.lineno,
@@ -840,7 +875,9 @@ class Translator:
         # assignment to a property with a known setter -> inline it
         if isinstance(target, ast.Attribute):
             recv = ast.unparse(target.value)
-            tcls = ctx.cls if recv == ctx.selfname else RECEIVER_HINTS.get((ctx.cls, recv))
+            tcls = ctx.cls if recv == ctx.selfname else RECEIVER_HINTS.get((ctx.cls, self.nsrc(ctx, target.value)))
+            if DEBUG_KEYS and recv != ctx.selfname:
+                print("KEY recv", ctx.cls, ctx.qual, "|", recv, "|", self.nsrc(ctx, target.value))
             if tcls:
                 inl = self.inline_setter(ctx, st, tcls, target.attr, self.argsrc(ctx, value), recv)
                 if inl is not None:
@@ -1006,6 +1043,10 @@ class Translator:
                     chk = self.mk(ctx, "check", st, cond=ast.unparse(t), exc=exc_name(r), raise_line=r.lineno,
                                   raise_end=r.end_lineno)
                 chk["end_line"] = st.test.end_lineno
+                if (isinstance(t, ast.Compare) and len(t.ops) == 1 and isinstance(t.ops[0], ast.NotEq)):
+                    sides = [t.left, t.comparators[0]]
+                    if all(isinstance(x, ast.Call) and _is_name(x.func, "len") and len(x.args) == 1 for x in sides):
+                        ctx.len_eq.add(frozenset(ast.unparse(x.args[0]) for x in sides))
                 return pre + [chk] + self.block(ctx, st.orelse)
             pre = self.effects(ctx, st.test, st)
             conj = st.test.values if isinstance(st.test, ast.BoolOp) and isinstance(st.test.op, ast.And) else [st.test]
@@ -1058,7 +1099,14 @@ class Translator:
                             ctx.fresh_shallow.discard(t.id)
                             ctx.validated.discard(t.id)
             f0 = (set(ctx.fresh_deep), set(ctx.fresh_shallow), set(ctx.validated))
+            idx_name = None
+            if (isinstance(st.iter, ast.Call) and _is_name(st.iter.func, "enumerate") and len(st.iter.args) == 1
+                    and isinstance(st.target, ast.Tuple) and len(st.target.elts) == 2 and isinstance(st.target.elts[0], ast.Name)):
+                idx_name = st.target.elts[0].id
+                ctx.index_of[idx_name] = ast.unparse(st.iter.args[0])
             body = self.block(ctx, st.body)
+            if idx_name is not None:
+                ctx.index_of.pop(idx_name, None)
             ctx.fresh_deep &= f0[0]
             ctx.fresh_shallow &= f0[1]
             ctx.validated &= f0[2]
@@ -1080,7 +1128,7 @@ class Translator:
             for t in st.targets:
                 if isinstance(t, ast.Attribute):
                     recv = ast.unparse(t.value)
-                    tcls = ctx.cls if recv == ctx.selfname else RECEIVER_HINTS.get((ctx.cls, recv))
+                    tcls = ctx.cls if recv == ctx.selfname else RECEIVER_HINTS.get((ctx.cls, self.nsrc(ctx, t.value)))
                     if tcls:
                         inl = self.inline_setter(ctx, st, tcls, t.attr, ("unknown", None), recv, kind="deleter")
                         if inl is not None:
